@@ -96,6 +96,19 @@ def step_oracle(G, op, r, ob, oa, removed):
         if op[1] in [name_of(x.split('\t')) for x in before] and want != after:
             out.append(('rm(%r) did not remove exactly the line and its documented dependants' % op[1],
                         [x for x in want if x not in after][:3] or 'nothing more', [x for x in after if x not in want][:3] or 'nothing less'))
+    # a stand-in link is made only for a step that no stored link fits: one that repeats the oriented pair of a stored link
+    # (in direct or complement form) with an overlap the stored one is compatible with should not exist
+    inv = {'+': '-', '-': '+'}
+    rows = [x[4:].split('\t') for x in oa.split('\n') if x.startswith('L|')]
+    reals = [f for f in rows if f[0] == 'L' and 'co:Z:GFAPY_virtual_line' not in f]
+    for v in [f for f in rows if f[0] == 'L' and 'co:Z:GFAPY_virtual_line' in f]:
+        for f in reals:
+            direct = f[1:5] == v[1:5]
+            compl = [f[3], inv.get(f[4]), f[1], inv.get(f[2])] == v[1:5]
+            if (direct and (f[5] == '*' or v[5] == '*' or f[5] == v[5])) or \
+                    (compl and (f[5] == '*' or v[5] == '*' or gen.complement_cigar(f[5]) == v[5])):
+                out.append(('a stand-in link %s was created although the stored link %s fits the step' % (' '.join(v[1:6]), ' '.join(f[1:6])),
+                            None, '\t'.join(v)))
     if r[0] == 'ok' and not any('GFAPY_virtual' in x or 'created_by_gfapy' in x for x in oa.split('\n')):
         # equal to a Gfa parsed afresh from the written text
         fresh = impl.outcome(lambda: GL.impl_obs(g.Gfa(after, version=G.version, vlevel=1)))
